@@ -147,6 +147,36 @@ def op_table():
         return ("copyrows", cf.copyrows(rows), rows)
     add("copyrows_continue_on_copy", lambda m: m.nrows >= 1, f_copyrows)
 
+    def f_copyrows_run(cf, m, w):
+        rows = [0, 1]
+        return ("copyrows", cf.copyrows(rows), rows)
+    add("copyrows_consecutive_rows", lambda m: m.nrows >= 2, f_copyrows_run)
+
+    def f_copyrows_all(cf, m, w):
+        rows = list(range(m.nrows))
+        return ("copyrows", cf.copyrows(np.array(rows)), rows)
+    add("copyrows_every_row", lambda m: m.nrows >= 1, f_copyrows_all)
+
+    def f_copyrows_mask(cf, m, w):
+        mask = np.ones(m.nrows, bool); mask[m.nrows - 1] = False
+        return ("copyrows", cf.copyrows(mask), list(range(m.nrows - 1)))
+    add("copyrows_bool_mask", lambda m: m.nrows >= 2, f_copyrows_mask)
+
+    # one column assigned from another column of the same object: afterwards they are two columns with equal values
+    def f_attr_from_b(cf, m, w):
+        cf.a = cf.b; m.cols["a"] = list(m.cols["b"])
+    add("setattr_from_other_column", lambda m: "a" in m.cols and "b" in m.cols, f_attr_from_b)
+
+    def f_item_from_b(cf, m, w):
+        # item assignment writes into the existing column, so the values take that column's type (int32 in the mixed table)
+        want = np.array(m.cols["b"]).astype(cf.getcolumn("a").dtype).tolist()
+        cf["a"] = cf["b"]; m.cols["a"] = want
+    add("setitem_from_other_column", lambda m: "a" in m.cols and "b" in m.cols, f_item_from_b)
+
+    def f_add_from_a(cf, m, w):
+        cf.addcolumn(cf.a, "c"); m.cols["c"] = list(m.cols["a"])
+    add("addcolumn_new_from_column", lambda m: "a" in m.cols and "c" not in m.cols, f_add_from_a)
+
     def f_getbig(cf, m, w):
         big = cf.bigarray
         got = np.asarray(big, float)
